@@ -8,7 +8,7 @@ import re as _re
 from typing import Any, Dict, List, Optional, Set
 
 from .. import materialize, rx
-from ..core import Ctx, Locals, assigned_names, dotted, names_in, norm, stmts_local, walk_local
+from ..core import Ctx, Locals, assigned_names, dotted, names_in, norm, presence_test, stmts_local, walk_local
 from ..paths import enumerate_paths, guards_of, stmt_of
 from ..typed import Typed, eyecite_class
 from .c04 import C04, dedupe_group_names
@@ -107,6 +107,62 @@ def rule_dispatch(ctx: Ctx, data):
                 ok = False
         ctx.ob("R-C01-5", "find.get_citations/short-flag-dispatch", ok and n_s >= 1 and n_f >= 1,
                f"a citation token is extracted as a short form iff its extractor is flagged short ({n_s} short / {n_f} full paths)", node=readers.get("CitationToken") or gc, mod=fm)
+
+
+def rule_no_clobber(ctx: Ctx, C: C04):
+    """R-C01-11: the metadata scans of one citation run in sequence and several of them may store the same field
+    (pin cite: after and before the citation; year: year parenthetical and California-style year).  A later scan must not wipe
+    what an earlier one found: its store has to keep the old value when it has nothing itself (`new or old`), or be guarded
+    by the presence of its own value."""
+    repo = ctx.repo
+    hm, mm = repo.mod("helpers"), repo.mod("models")
+    n = 0
+    for cname, ci in sorted(repo.classes.items()):
+        am = ci.methods.get("add_metadata")
+        if am is None:
+            continue
+        calls = []
+        for st in am.body:
+            for c in ([st.value] if isinstance(st, ast.Expr) and isinstance(st.value, ast.Call) else []):
+                f = dotted(c.func)
+                if f and repo.func(f"helpers.{f}") is not None and c.args and norm(c.args[0]) == am.args.args[0].arg:
+                    calls.append((f, repo.func(f"helpers.{f}"), c))
+        stores = {}
+        for f, fn, c in calls:
+            P = fn.args.args[0].arg
+            for x in stmts_local(fn.body):
+                if isinstance(x, ast.Assign) and len(x.targets) == 1 and isinstance(x.targets[0], ast.Attribute) and norm(x.targets[0].value) == f"{P}.metadata":
+                    stores.setdefault(f, []).append((x.targets[0].attr, x, fn, P))
+        for i, (f2, fn2, c2) in enumerate(calls):
+            earlier = {fld for f1, _, _ in calls[:i] for fld, *_ in stores.get(f1, [])}
+            for fld, x, fn, P in stores.get(f2, []):
+                if fld not in earlier:
+                    continue
+                n += 1
+                v = x.value
+                keeps = isinstance(v, ast.BoolOp) and isinstance(v.op, ast.Or) and norm(v.values[-1]) == f"{P}.metadata.{fld}"
+                guards, _n = guards_of(enumerate_paths(fn.body), x)
+                own = False
+                mv = C.match_vars(fn)
+                for gc, go in guards:
+                    pt = presence_test(gc, go)
+                    if pt and pt[1] and pt[0] not in mv and any(norm(sub) == pt[0] for sub in ast.walk(v)):
+                        own = True  # stored only when its own source value (a sub-expression of what is stored) is present
+                    # a value unpacked from <match>.groups() under `if <match>:` where every group takes part in every match
+                    if pt and pt[1] and pt[0] in mv and isinstance(v, ast.Name):
+                        for y in stmts_local(fn.body):
+                            if isinstance(y, ast.Assign) and isinstance(y.targets[0], ast.Tuple) and v.id in [norm(e) for e in y.targets[0].elts] \
+                                    and isinstance(y.value, ast.Call) and norm(y.value.func) == f"{pt[0]}.groups":
+                                pat = C.pattern_text(hm, mv[pt[0]]["pattern"])
+                                if pat is not None:
+                                    gi = C.rxs.info(pat, mv[pt[0]]["wrap"], mv[pt[0]]["flags"])
+                                    idx = [norm(e) for e in y.targets[0].elts].index(v.id) + 1
+                                    own = own or idx in gi["must"]
+                ctx.ob("R-C01-11", f"models.{cname}.add_metadata/{f2}:metadata.{fld}", keeps or own,
+                       f"`{f2}` runs after another scan that stores metadata.{fld}; its store `{norm(x)[:70]}` must keep the earlier value when it has none of "
+                       f"its own (`new or old`) or be guarded by the presence of its own value (guards {[(norm(g)[:30], o) for g, o in guards]}): otherwise a "
+                       "written component that was found is wiped", node=x, mod=hm)
+    ctx.extra["fields_stored_by_several_scans"] = n
 
 
 def rule_short_pairing(ctx: Ctx, data):
@@ -356,6 +412,8 @@ def run(ctx: Ctx):
     from ..backscan import rule_backscan
 
     ctx.guard(rule_backscan, ctx, "R-C01-10", True)
+    ctx.guard(rule_no_clobber, ctx, C)
+    ctx.floor("R-C01-11", 2)
     ctx.floor("R-C01-10", 7)
     ctx.floor("R-C01-1", 6)
     ctx.floor("R-C01-3", 18)  # reads of match groups; caching a group in a local legitimately lowers the count
